@@ -74,6 +74,7 @@ def build_item(it, key):
         meta["fragile"] = bool(S.ops_in(sp) & {"transformer:Affine", "transformer:Scale"})
         single = sp["op"] == "BNAF" or (sp["op"] == "Invert" and sp["child"]["op"] == "BNAF")
         meta["multi_numeric"] = (fn or inn) and not single
+        meta["pullback"] = it.get("origin") in ("combinator", "random") and sp["op"] in ("Chain", "Scan", "Invert") and not (fn or inn)
         return b, meta
     c = it["case"]
     flow = flowgen.build_flow(c, key)
@@ -98,7 +99,7 @@ def flow_meta(c):
     return {"shape": (dim,), "cond_shape": None if c["cond_dim"] is None else (c["cond_dim"],), "tags": (z, z),
             "has_inv": inv_ok, "fwd_ok": inv_ok or not c["invert"], "fwd_numeric": fn, "inv_numeric": inn, "crit0": crit,
             "ops": ["flow:" + c["factory"], "Invert" if c["invert"] else "Scan", "Scan"], "name": flowgen.case_name(c),
-            "overflow": False, "multi_numeric": bool(fn or inn), "planar": c["factory"] == "planar_flow", "fragile": False}
+            "overflow": False, "multi_numeric": bool(fn or inn), "planar": c["factory"] == "planar_flow", "fragile": False, "pullback": not (fn or inn)}
 
 
 def _leaky_preimages_of_one(max_val):
@@ -223,6 +224,24 @@ def _one_structure(rec, prop, it, meta, b, bundle, mode, rng, T, fdt):
         cs[::7] = 0.0
         if not meta["planar"]:
             cs[3::11] *= 10.0
+    # inner leaves: pull their critical values back to the outer input (perturbed parameters, compositions and flows)
+    pb_inv = None
+    if meta.get("pullback") and mode[0] != "init" and mode[1] <= 1.0:
+        from fjmon import pullback as PB
+
+        pp, pc, st = PB.pulled_back_points(b, "fwd", cshape, rng, fdt, max_steps=2, max_points=8)
+        for k_, v_ in st.items():
+            rec.count(k_, v_)
+        slots = np.where(xcrit)[0][::-1][: len(pp)]
+        for j_, sl in enumerate(slots):
+            xs[sl] = pp[j_]
+            xhits[sl] = {"pulled_back_inner_critical"}
+            if cs is not None and pc is not None and pc[j_] is not None:
+                cs[sl] = pc[j_]
+        if meta["has_inv"]:
+            pb_inv = PB.pulled_back_points(b, "inv", cshape, rng, fdt, max_steps=2, max_points=6)
+            for k_, v_ in pb_inv[2].items():
+                rec.count("codomain_" + k_, v_)
     try:
         D = bundle.dom(b, jnp.asarray(xs), None if cs is None else jnp.asarray(cs))
     except Exception as e:  # noqa: BLE001  - raised by the library while executing/tracing its methods
@@ -380,6 +399,13 @@ def _one_structure(rec, prop, it, meta, b, bundle, mode, rng, T, fdt):
     cs2 = None
     if cshape is not None:
         cs2 = rng.standard_normal((len(ys), *cshape)).astype(fdt)
+    if pb_inv is not None:
+        slots = np.where(ycrit)[0][::-1][: len(pb_inv[0])]
+        for j_, sl in enumerate(slots):
+            ys[sl] = pb_inv[0][j_]
+            yhits[sl] = {"pulled_back_inner_critical"}
+            if cs2 is not None and pb_inv[1] is not None and pb_inv[1][j_] is not None:
+                cs2[sl] = pb_inv[1][j_]
     try:
         C = bundle.cod(b, jnp.asarray(ys), None if cs2 is None else jnp.asarray(cs2))
     except Exception as e:  # noqa: BLE001
